@@ -43,6 +43,7 @@ STRESS_SCENARIOS = {
     "C02": ([], 0, ["hammer"], 60),
     "C03": (["askjoin", "hammer"], 6, ["askjoin", "hammer"], 180),
     "C06": ([], 0, ["hammer"], 60),
+    "C08": (["idlewin"], 0, ["idlewin"], 0),
     "C10": (["late"], 0, ["late", "blocking"], 0),
     "C11": (["ids"], 0, ["ids"], 0),
     "C17": (["blocking", "late"], 0, ["blocking", "late", "hammer"], 60),
